@@ -12,12 +12,14 @@ class EdDSAAlgModel(JWSAlgModel):
 
     def sign(self, msg: bytes, key: OKPKey) -> bytes:
         op_key = key.get_op_key("sign")
-        assert isinstance(op_key, (Ed25519PrivateKey, Ed448PrivateKey))
+        if not isinstance(op_key, (Ed25519PrivateKey, Ed448PrivateKey)):
+            raise ValueError('Key for "EdDSA" not supported, only "Ed25519" and "Ed448" allowed')
         return op_key.sign(msg)
 
     def verify(self, msg: bytes, sig: bytes, key: OKPKey) -> bool:
         op_key = key.get_op_key("verify")
-        assert isinstance(op_key, (Ed25519PublicKey, Ed448PublicKey))
+        if not isinstance(op_key, (Ed25519PublicKey, Ed448PublicKey)):
+            raise ValueError('Key for "EdDSA" not supported, only "Ed25519" and "Ed448" allowed')
         try:
             op_key.verify(sig, msg)
             return True
